@@ -1371,6 +1371,27 @@ def c07_routes(ctx):
                          dict(case, seq=seq, at=k))
                 break
         res.distribution["route/slash/held-iterator histories"] += 1
+        # (d) a house variant of the draft's own metaschema (same id, one definition changed) validated by a
+        # validator that was CREATED before, and is first used after, unrelated work with the real metaschema
+        meta = copy.deepcopy(cls.META_SCHEMA)
+        defs = meta.get("definitions") or {}
+        if defs:
+            name = sorted(defs)[0]
+            meta["definitions"][name] = {"type": "string"}
+            meta.setdefault("properties", {})["probe"] = {"$ref": "#/definitions/" + name}
+            held = cls(meta)
+            try:
+                cls.check_schema({"type": "string"})
+                V.validate(1, {"type": "integer"}, cls=cls)
+            except Exception:       # noqa: BLE001
+                pass
+            for x in ({"probe": "s"}, {"probe": 1}, {"probe": [1]}):
+                got, want = answer(held, x), answer(cls(copy.deepcopy(meta)), x)
+                if got != want:
+                    res.fail("history-dependent:house-variant",
+                             "a validator for a house variant of the %s metaschema, created before and used after unrelated calls, judges %r: %r; a fresh one: %r" % (tag, x, got, want),
+                             {"cls": tag, "definition": name})
+                    break
 
 
 def c07_all(ctx):
@@ -2888,6 +2909,10 @@ def run(prop, tier, seed, proof):
         ctx.res.disagree("SRC", d["case"], d["model"], d["source"],
                          "interpreted source differs from the hand-written model: " + str(corr.diff(d["model"], d["source"])))
     ctx.res.distribution["VAL cases also run through the interpreted source"] = ctx.drv.src_runs
+    # no validation may change the schema or the instance it is given (they are the caller's)
+    for m in impl.MODIFIED:
+        ctx.res.fail("input-modified", "a validation changed the schema or the instance it was given: now %s" % m["after"][:300], m["case"])
+    del impl.MODIFIED[:]
     return ctx.res
 
 
